@@ -500,6 +500,13 @@ def work(item):
         # compiled (generated code that names the right properties can
         # still fail to compile: a property of the wrong type, ...)
         base, fac = factors(cls, item['dim'], item['solids'])
+        if item.get('rich'):
+            # ... on top of the vector with the numeric options on, and run:
+            # pairs (boolean option, viscosity / damping / ...) meet
+            base = dict(base)
+            for k_ in sorted(fac):
+                if k_ in NUM2 and k_ not in ('pb',):
+                    base[k_] = fac[k_][-1]
         vecs = []
         for k_ in sorted(fac):
             if all(isinstance(v_, bool) for v_ in fac[k_]):
@@ -518,7 +525,8 @@ def work(item):
         clean = bool((j + item['dim']) % 2)
         level = 3 if j < nl3 else (2 if j < nl2 else 1)
         if item.get('departures'):
-            level = 2.5
+            level = 3 if (item.get('rich') and cls.__name__ not in
+                          RUN_NOT_ASSERTED) else 2.5
         case = dict(scheme=item['scheme'], dim=item['dim'],
                     solids=item['solids'], clean=clean,
                     options={k: v for k, v in kw.items()
@@ -589,10 +597,17 @@ def run(tier):
                           flavour='plain', timeout=3000))
     for n in names:
         for part in range(2):
+            # quick: each boolean departure on top of the numeric options,
+            # compiled and run; thorough: also from the defaults, compiled
             items.append(dict(seed=seed, scheme=n, dim=2, solids=False,
                               budget=1, n_codegen=0, n_run=0, only_run=True,
-                              departures=True, part=part, of=2,
+                              departures=True, rich=True, part=part, of=2,
                               flavour='plain', timeout=3000))
+            if not quick:
+                items.append(dict(seed=seed, scheme=n, dim=2, solids=False,
+                                  budget=1, n_codegen=0, n_run=0,
+                                  only_run=True, departures=True, part=part,
+                                  of=2, flavour='plain', timeout=3000))
     for n in names:
         for dim in (1, 2, 3):
             for solids in (False, True):
